@@ -65,9 +65,18 @@ VARIABLES policy,      \* entries loaded in the enforcer
           st,          \* per stream: [exists, paused, readonly, len, plain, gsub]
           cursors,     \* per stream: stored cursor offset of the one cursor id, -1 = none
           members,     \* consumer ids that are members of the group
+          sessions,    \* clients that hold an open PublishAsync session (a long-lived stream: the first message
+                       \* of a client opens it, its later messages travel on the SAME session)
+          enforcer,    \* the server built a policy enforcer at start-up (startAPIServer builds none when
+                       \* authorisation is enabled but the model or policy path is missing)
           obs          \* result of the last call
 
-vars == <<policy, policyFile, st, cursors, members, obs>>
+vars == <<policy, policyFile, st, cursors, members, sessions, enforcer, obs>>
+
+(* What decides a call: the loaded policy - and nothing when no enforcer    *)
+(* exists.  With authorisation enabled and no enforcer every call is        *)
+(* unauthorised (fail closed): there is no entry any client could hold.     *)
+EffPolicy == IF enforcer THEN policy ELSE {}
 
 Absent == [exists |-> FALSE, paused |-> FALSE, readonly |-> FALSE, len |-> 0, plain |-> 0, gsub |-> NoSub]
 Fresh  == [Absent EXCEPT !.exists = TRUE]
@@ -160,23 +169,27 @@ Run(w, pol, call) == RunFrom(Steps(call.m), 1, Sigma(w), pol, call)
 
 -----------------------------------------------------------------------------
 \* a client calls an API method
+\* (every message of a PublishAsync session is a call of its own: it is authorised against the policy
+\* loaded at that moment, whatever the session was allowed to do before)
 DoCall(call) ==
-  LET sg == Run(World, policy, call) IN
+  LET sg == Run(World, EffPolicy, call) IN
   /\ st' = sg.st /\ cursors' = sg.cursors /\ members' = sg.members
+  /\ sessions' = IF call.m = "PublishAsync" THEN sessions \cup {call.c} ELSE sessions
   /\ obs' = [a |-> "Call", res |-> sg.res]
-  /\ UNCHANGED <<policy, policyFile>>
+  /\ UNCHANGED <<policy, policyFile, enforcer>>
 
 \* an operator edits the policy file
 DoEditPolicy(p) ==
   /\ policyFile' = p
   /\ obs' = [a |-> "EditPolicy", res |-> "Ok"]
-  /\ UNCHANGED <<policy, st, cursors, members>>
+  /\ UNCHANGED <<policy, st, cursors, members, sessions, enforcer>>
 
 \* SIGHUP: the enforcer reloads the file
 DoReload ==
+  /\ enforcer
   /\ policy' = policyFile
   /\ obs' = [a |-> "Reload", res |-> "Ok"]
-  /\ UNCHANGED <<policyFile, st, cursors, members>>
+  /\ UNCHANGED <<policyFile, st, cursors, members, sessions, enforcer>>
 
 -----------------------------------------------------------------------------
 (* What the property demands.                                               *)
@@ -185,7 +198,7 @@ DoReload ==
 (* policy decides, so a reload takes effect for the calls after it.         *)
 Refused(o) == o.res \in {"Denied", "Err"}
 P_Call(call) ==
-  Unauthorised(policy, call) => (Refused(obs') /\ World' = World)
+  Unauthorised(EffPolicy, call) => (Refused(obs') /\ World' = World)
 P_Reload == policy' = policyFile /\ World' = World
 P_Edit == policy' = policy /\ World' = World
 
@@ -193,4 +206,5 @@ TypeOK ==
   /\ policy \subseteq Entries /\ policyFile \subseteq Entries
   /\ \A s \in Streams : st[s].len \in Nat /\ st[s].plain \in Nat
   /\ \A s \in Streams : cursors[s] \in {-1, 0}
+  /\ sessions \subseteq Clients /\ enforcer \in BOOLEAN
 =============================================================================
